@@ -281,6 +281,23 @@ def writer_rules(ck):
     ck.ob('DT-open-destination', fw.loc(opn), ok, 'every mode with w, a or + is redirected to a temporary file', key='DT-open-destination|redirect')
     last = opn.body[-1]
     ck.ob('DT-open-destination', fw.loc(opn), isinstance(last, ast.Raise), 'any other mode (e.g. x) is refused', key='DT-open-destination|refuse')
+    # the temporary file starts from the destination's content for r+ only: append modes are finalised by appending the temporary file to the destination,
+    # so pre-filling them would write the old content twice; w modes truncate
+    otf = tmpf
+    cps = calls_with_env(otf, lambda c: call_name(c) in ('shutil.copy', 'shutil.copy2', 'shutil.copyfile'))
+    ok = len(cps) == 1
+    detail = '{} copy site(s)'.format(len(cps))
+    if ok:
+        names = {}
+        for k in flow.atoms_of(cps[0][2]):
+            if k[0] == 'In' and k[2] == 'mode' and k[1] in ("'+'", "'r'", "'a'", "'w'"):
+                names[k] = {"'+'": 'PLUS', "'r'": 'R', "'a'": 'A', "'w'": 'W'}[k[1]]
+        f = flow.rename(cps[0][2], names)
+        ok = len(names) == len(flow.atoms_of(cps[0][2])) and flow.equivalent(f, flow.parse_formula('PLUS and R'), flow.parse_formula('(R or A or W) and not (R and A) and not (R and W) and not (A and W)'))[0] \
+            and [u(a) for a in cps[0][0].args] == ['str(filename)', 'tmp_path']
+        detail = flow.show(cps[0][2])[:100]
+    ck.ob('DT-open-destination', fw.loc(otf), ok, 'the temporary file is pre-filled with the destination exactly for r+ (never for append modes, whose finalisation appends; never for w): ' + detail,
+          key='DT-open-destination|prefill')
 
     # ---- _open_tmp_file
     mk = [c for c in walk_local(tmpf) if isinstance(c, ast.Call) and call_name(c) == 'tempfile.mkstemp']
